@@ -21,11 +21,11 @@ import (
 // functions (all returns) and parameters (all static callers). Every source it
 // arrives at must be clean:
 //
-//	- a constant,
-//	- a number rendered by strconv, a quoted/escaped string,
-//	- strings.ToValidUTF8(...),
-//	- (*http.Request).Method (net/http accepts only token characters there),
-//	- or a source named in labelExceptions with its reason.
+//   - a constant,
+//   - a number rendered by strconv, a quoted/escaped string,
+//   - strings.ToValidUTF8(...),
+//   - (*http.Request).Method (net/http accepts only token characters there),
+//   - or a source named in labelExceptions with its reason.
 //
 // Anything else - in particular a host name cut out of a request-target - is a
 // violation naming the call site and the unclean source.
